@@ -7,7 +7,7 @@ from common import Check, zlit, coq_list
 import wfzoo
 
 THEOREMS = ["C16_flatten_restore_identity", "C16_unselected_entries_untouched", "C16_unselected_keys_untouched", "C16_structure_preserved",
-            "C16_vector_length", "C16_empty_selection", "C16_gradient_duality_one_key_partial", "C16_hypotheses_satisfiable"]
+            "C16_vector_length", "C16_empty_selection", "C16_gradient_duality_one_key_partial", "C16_gradient_duality_all_keys", "C16_hypotheses_satisfiable"]
 S_LT = "pyqmc/observables/accumulators.py:LinearTransform"
 S_PG = "pgradient"
 S_CUSP = "pyqmc/wftools.py:generate_jastrow"
